@@ -29,6 +29,8 @@ type fastConn struct {
 	once   sync.Once
 	ids    chan string
 	failW  bool // guarded by mu: every later write fails
+	fail   chan struct{} // when closed, reads fail (the harness's fault, distinct from the client's Close)
+	closes int           // guarded by mu: how often the client closed this connection
 }
 
 func (c *fastConn) WriteMessage(mt int, data []byte) error {
@@ -59,9 +61,34 @@ func (c *fastConn) ReadMessage() (int, []byte, error) {
 		return 1, m, nil
 	case <-c.closed:
 		return 0, nil, errors.New("closed")
+	case <-c.fail:
+		return 0, nil, errors.New("read: connection reset")
 	}
 }
-func (c *fastConn) Close() error { c.once.Do(func() { close(c.closed) }); return nil }
+func (c *fastConn) Close() error {
+	c.mu.Lock()
+	c.closes++
+	c.mu.Unlock()
+	c.once.Do(func() { close(c.closed) })
+	return nil
+}
+
+// seqDialer hands out its connections one after the other
+type seqDialer struct {
+	mu    sync.Mutex
+	conns []*fastConn
+	next  int
+}
+
+func (d *seqDialer) DialContext(context.Context, string, http.Header) (graphql.WSConn, error) {
+	d.mu.Lock()
+	defer d.mu.Unlock()
+	if d.next >= len(d.conns) {
+		return nil, errors.New("no more connections")
+	}
+	d.next++
+	return d.conns[d.next-1], nil
+}
 
 type fastDialer struct{ c *fastConn }
 
@@ -297,9 +324,73 @@ func wsProbeCloseFailingWritesUndrained() string {
 	}
 }
 
+// a client is started, its connection drops (the reader reports and ends), the application starts it AGAIN: the
+// second Start must wait for the NEW connection's connection_ack (ackFails=false) and must report a read fault in
+// that wait and close the new connection (ackFails=true)
+func wsProbeSecondStart(ackFails bool) func() string {
+	return func() string {
+		mk := func() *fastConn {
+			return &fastConn{in: make(chan []byte, 16), closed: make(chan struct{}), ids: make(chan string, 8), fail: make(chan struct{})}
+		}
+		c1, c2 := mk(), mk()
+		c1.in <- []byte(`{"type":"connection_ack"}`)
+		cl := graphql.NewClientUsingWebSocket("ws://h/q", &seqDialer{conns: []*fastConn{c1, c2}})
+		errCh, err := cl.Start(context.Background())
+		if err != nil {
+			return ""
+		}
+		close(c1.fail) // the connection drops
+		select {
+		case <-errCh:
+		case <-time.After(2 * time.Second):
+			return "" // no report: another finding's business
+		}
+		type res struct{ err error }
+		done := make(chan res, 1)
+		go func() { _, e := cl.Start(context.Background()); done <- res{e} }()
+		select {
+		case r := <-done:
+			if r.err == nil {
+				return "start-returned-before-ack a second Start on the same client returned success before the new connection's connection_ack was read"
+			}
+			return "" // refusing a second Start outright would be a different design, not this finding
+		case <-time.After(150 * time.Millisecond):
+		}
+		if !ackFails {
+			c2.in <- []byte(`{"type":"connection_ack"}`)
+			select {
+			case r := <-done:
+				if r.err != nil {
+					return "start-retry-failed a second Start after a dropped connection fails although dial, init and ack succeed: " + r.err.Error()
+				}
+			case <-time.After(2 * time.Second):
+				return "start-hangs the second Start did not return after its connection_ack"
+			}
+			cl.Close()
+			return ""
+		}
+		close(c2.fail)
+		select {
+		case r := <-done:
+			if r.err == nil {
+				return "start-fault-unreported the second Start returned success although reading its connection_ack failed"
+			}
+		case <-time.After(2 * time.Second):
+			return "start-hangs the second Start did not return after a read fault in its ack wait"
+		}
+		c2.mu.Lock()
+		n := c2.closes
+		c2.mu.Unlock()
+		if n == 0 {
+			return "start-failure-left-conn-open the second Start failed in its ack wait and left the new connection open"
+		}
+		return ""
+	}
+}
+
 func wsStressChild(c *Ctx, n int) {
 	w := bufio.NewWriter(os.Stdout)
-	for _, probe := range []func() string{wsProbeTwoBadFramesThenClose, wsProbeLateNextAfterUnsubscribe, wsProbeCloseFailingWritesUndrained} {
+	for _, probe := range []func() string{wsProbeTwoBadFramesThenClose, wsProbeLateNextAfterUnsubscribe, wsProbeCloseFailingWritesUndrained, wsProbeSecondStart(false), wsProbeSecondStart(true)} {
 		if msg := probe(); msg != "" {
 			fmt.Fprintf(w, "PROBE %s\n", msg)
 		}
